@@ -75,7 +75,7 @@ func findKVShape(p *load.Program) *kvShape {
 
 func runC03(c *core.Ctx) {
 	runFixtures(c, "drop", "valid")
-	c.Explain("The tree invariant over reachable states is not decidable statically; decided are the preconditions that keep a flat path->record map a tree, on every path of the key-value FS (mem.FS delegates to it): (R03.1) every create site — a save of a record constructed in the operation (Mkdir, MkdirAll, OpenFile with create) or a store of a loaded record under another path (Rename's destination) — is dominated by a successful look-up of path.Dir(p) AND its IsDir()-true edge, or p is the root constant, or the path comes from the ancestor walk whose classifier answers a non-directory with ErrNotDir and which is replayed parent-first; (R03.2) every delete site and Rename's source and destination are dominated by a 'not the root' fact; (R03.3) before Rename's first store there is a test relating both names (other than equality) whose taken edge returns a *LinkError — a directory is never moved into its own subtree; (R03.4) on every path deleting a directory the listing was fetched and found empty; (R03.5) every create site is reached only on paths on which the target path itself was looked up and found absent (failed look-up, errors.Is(err, ErrNotExist)) or not a directory — an existing directory is never overwritten by another record, which would leave its children below a non-directory; (R03.6) every strings.HasPrefix between names in packages keyvalue, mem, mount and the root package tests a prefix ending in '/' (or a constant on an element boundary): routing, listing and the subtree guard match whole path elements, so 'ab' is never treated as inside 'a'; (R03.7) every mode stored back into an existing record (Chmod by path and by handle) copies io/fs.ModeType from the previous mode — bitwise abstraction over &, &^, | with constants — so a directory cannot become a regular file above its children; (R03.8) in Rename no recursive child move is reachable after the source record was deleted and every child move follows the store of the destination record, so a fault between the steps leaves two well-formed directories; (R03.9) mount.FS.Rename scans the mount table for mount points below the old name before moving it (known finding: it does not). (R03.10) the generic Sub view joins base and name with path.Join; (R03.11) it owns Remove/RemoveAll and refuses its own root. (R03.12) the AddMount analysis of R06.4: a mount point is a valid name other than the root whose directory exists. NOT claimed: the invariant itself in every reachable state, agreement of listing/Stat/Open, mount and Sub compositions (their only namespace write is AddMount, C06), termination.")
+	c.Explain("The tree invariant over reachable states is not decidable statically; decided are the preconditions that keep a flat path->record map a tree, on every path of the key-value FS (mem.FS delegates to it): (R03.1) every create site — a save of a record constructed in the operation (Mkdir, MkdirAll, OpenFile with create) or a store of a loaded record under another path (Rename's destination) — is dominated by a successful look-up of path.Dir(p) AND its IsDir()-true edge, or p is the root constant, or the path comes from the ancestor walk whose classifier answers a non-directory with ErrNotDir and which is replayed parent-first; (R03.2) every delete site and Rename's source and destination are dominated by a 'not the root' fact; (R03.3) before Rename's first store there is a test relating both names (other than equality) whose taken edge returns a *LinkError — a directory is never moved into its own subtree; (R03.4) on every path deleting a directory the listing was fetched and found empty; (R03.5) every create site is reached only on paths on which the target path itself was looked up and found absent (failed look-up, errors.Is(err, ErrNotExist)) or not a directory — an existing directory is never overwritten by another record, which would leave its children below a non-directory; (R03.6) every strings.HasPrefix between names in packages keyvalue, mem, mount and the root package tests a prefix ending in '/' (or a constant on an element boundary): routing, listing and the subtree guard match whole path elements, so 'ab' is never treated as inside 'a'; (R03.7) every mode stored back into an existing record (Chmod by path and by handle) copies io/fs.ModeType from the previous mode — bitwise abstraction over &, &^, | with constants — so a directory cannot become a regular file above its children; (R03.8) in Rename no recursive child move is reachable after the source record was deleted and every child move follows the store of the destination record, so a fault between the steps leaves two well-formed directories; (R03.9) mount.FS.Rename scans the mount table for mount points below the old name before moving it (known finding: it does not). (R03.10) the generic Sub view joins base and name with path.Join; (R03.11) it owns Remove/RemoveAll and refuses its own root. (R03.12) the AddMount analysis of R06.4: a mount point is a valid name other than the root whose directory exists. (R03.13) Rename deletes no record but the source's. NOT claimed: the invariant itself in every reachable state, agreement of listing/Stat/Open, mount and Sub compositions (their only namespace write is AddMount, C06), termination.")
 	c.Assume("A3: listing names are single valid elements", "A6: partial correctness")
 	c.RuleDoc("R03.1", "parent is a directory before any create")
 	c.RuleDoc("R03.2", "root is never deleted, moved or replaced")
